@@ -5,14 +5,23 @@ from . import _vp8l_common as C
 
 ID = "C08"
 AREA = "vp8l"
-COQ_TARGETS = ["theories/Props/C08.vo"]
+COQ_TARGETS = ["theories/Props/C08.vo", "theories/Props/C08f.vo"]
 REQUIRES = ["From Coq Require Import List NArith ZArith Bool.",
             "From Coq.Strings Require Import Byte.",
             "From MS Require Import Base.Bytes Base.Outcome Webp.Huffman Webp.HuffmanSpec Webp.BitBufSpec Webp.Vp8l Webp.Vp8lSpec "
             "Webp.Vp8lProofsTop Props.C08.",
             "Import ListNotations.", "Open Scope N_scope."]
-COQCHK = ["MS.Props.C08"]
-from ._c07_theorems import THEOREMS_C08 as THEOREMS
+COQCHK = ["MS.Props.C08", "MS.Props.C08f"]
+from ._c07_theorems import THEOREMS_C08 as _T08
+THEOREMS = list(_T08) + [
+    ("C08_file_level", """forall (allow lenient : bool) (ms : N) (inp : input) (fuel : nat),
+  ilen inp <= ms -> (N.to_nat (ilen inp / 8) < fuel)%nat ->
+  webp_spec decodable_ok allow inp = true ->
+  webp_sanitize lossless_read allow lenient ms inp fuel = Ok tt"""),
+]
+REQUIRES_FOR = {"C08_file_level": ["From Coq Require Import List NArith Bool.", "From Coq.Strings Require Import Byte.",
+                                   "From MS Require Import Base.Bytes Base.Outcome Base.Prog Webp.Container Webp.Grammar Webp.Vp8l Webp.Vp8lSpec "
+                                   "Webp.WebpSpecProofs Props.C08f.", "Open Scope N_scope."]}
 
 TRUSTED = [
     "Coq 8.16.1 kernel (coqc; coqchk in the thorough tier); vm_compute only in Examples; no native_compute",
@@ -219,7 +228,7 @@ def coq_bool(line, model_out):
     return C.coq_bool_vp8l(line, model_out)
 
 
-LEVEL_TEXT = ("Theorem C08_model_complete (Coq, all byte strings, all dimensions in the container's range): every stream whose header phase the reference "
+LEVEL_TEXT = ("At file level (C08_file_level = C06_complete + C08_model_complete + monotonicity of the grammar): an input that satisfies the container grammar and whose lossless payloads are all decodable by the reference reading (dimensions below 2^32 pixels) and are not one of the two documented strictness cases is accepted by the modelled webpsan. Stream level: Theorem C08_model_complete (Coq, all byte strings, all dimensions in the container's range): every stream whose header phase the reference "
               "reading of the specification decodes and that is not a strict_exception is accepted by the model of LosslessImage::read; with "
               "C07_model_is_strict_spec the model accepts EXACTLY the strict reading. The sentence about libwebp's encoders and muxer cannot be proved about: "
               "files are produced in-process by WebPEncode / WebPAnimEncoder / WebPMux on every run, libwebp decodes them, webpsan::sanitize must accept them "
